@@ -370,47 +370,73 @@ func init() {
 			r.RequireMin("ESCSKIP escape handling in scanRegex", es, 1)
 			k := runKEYS(c, r, "KEYS")
 			r.RequireMin("KEYS obligations", k, 4)
-			for _, site := range []struct{ fn, needs string }{{"jlib.Split", "jlib.checkMatchRanges"}, {"jlib.replaceMatchFunc", "jlib.checkMatchRanges"}} {
-				f := c.mustFn(r, site.fn)
-				if f == nil {
-					continue
-				}
-				o := Obligation{Rule: "NEEDS", Key: site.fn + ":" + site.needs, Fn: site.fn, Pos: c.W.Pos(f.Pos()), Nontrivial: true}
-				ok := false
-				sliced := 0
-				scan := func(g *ssa.Function) {
-					for _, s := range bndSitesIn(c, g) {
-						if s.kind == "slice" && isStringType(s.x.Type()) {
-							sliced++
-							if dominatedByCallTo(s.ins, site.needs) {
-								ok = true
-							} else {
-								ok = false
-								break
+			// $split and $replace cut the subject at the offsets of the match objects they were
+			// handed (jlib.match.indexes): every such slice, wherever it lives in jlib, comes
+			// after checkMatchRanges
+			{
+				needs := "jlib.checkMatchRanges"
+				c.mustFn(r, needs)
+				bndCtx = c
+				fromIndexes := func(v ssa.Value) bool {
+					seen := map[ssa.Value]bool{}
+					var walk func(v ssa.Value, d int) bool
+					walk = func(v ssa.Value, d int) bool {
+						if v == nil || seen[v] || d > 8 {
+							return false
+						}
+						seen[v] = true
+						switch x := v.(type) {
+						case *ssa.UnOp:
+							return walk(x.X, d+1)
+						case *ssa.IndexAddr:
+							return walk(x.X, d+1)
+						case *ssa.Index:
+							return walk(x.X, d+1)
+						case *ssa.FieldAddr:
+							if st, ok := deref(x.X.Type()).Underlying().(*types.Struct); ok && st.Field(x.Field).Name() == "indexes" {
+								return true
+							}
+							return walk(x.X, d+1)
+						case *ssa.Field:
+							if st, ok := x.X.Type().Underlying().(*types.Struct); ok && st.Field(x.Field).Name() == "indexes" {
+								return true
+							}
+							return walk(x.X, d+1)
+						case *ssa.BinOp:
+							return walk(x.X, d+1) || walk(x.Y, d+1)
+						case *ssa.Phi:
+							for _, e := range x.Edges {
+								if walk(e, d+1) {
+									return true
+								}
 							}
 						}
+						return false
 					}
+					return walk(v, 0)
 				}
-				scan(f)
-				if sliced == 0 {
-					// the slicing loop was moved into a helper that only this function calls
-					for _, ci := range callsIn(f) {
-						g := ci.Common().StaticCallee()
-						if g == nil || !c.G.InSc[g] || len(g.Blocks) == 0 || shortFn(g) == site.needs {
+				nn := 0
+				for _, f := range libFuncsIn(c, c.REval) {
+					if f.Pkg == nil || f.Pkg.Pkg.Name() != "jlib" || shortFn(f) == needs {
+						continue
+					}
+					ord := 0
+					for _, bs := range bndSitesIn(c, f) {
+						if bs.kind != "slice" || !isStringType(bs.x.Type()) || !(fromIndexes(bs.lo) || fromIndexes(bs.hi)) {
 							continue
 						}
-						if sites, static := c.staticCallers(g); static && len(sites) == 1 {
-							bndCtx = c
-							scan(g)
+						ord++
+						nn++
+						o := Obligation{Rule: "NEEDS", Key: fmt.Sprintf("%s:match-slice#%d", shortFn(f), ord), Fn: shortFn(f), Pos: c.W.Pos(bs.ins.Pos()), Nontrivial: true}
+						if dominatedByCallTo(bs.ins, needs) {
+							o.Verdict, o.Reason = Discharged, "the subject is cut at match offsets only after "+needs
+						} else {
+							o.Verdict, o.Reason = Finding, shortFn(f)+" slices the subject string at match positions without a dominating call to "+needs
 						}
+						r.Add(o)
 					}
 				}
-				if ok && sliced > 0 {
-					o.Verdict, o.Reason = Discharged, fmt.Sprintf("all %d string slices in %s are dominated by a call to %s", sliced, site.fn, site.needs)
-				} else {
-					o.Verdict, o.Reason = Finding, site.fn+" slices the subject string at match positions without a dominating call to "+site.needs
-				}
-				r.Add(o)
+				r.RequireMin("NEEDS string slices at match offsets in jlib", nn, 3)
 			}
 			runPureNamed(c, r, []string{"jsonata.newMatchCallable", "jsonata.newRegexCallable", "jsonata.evalRegex"}, []string{"jsonata.regexCallable", "jsonata.matchCallable"}, 3)
 			runPureFamily(c, r, []string{"jlib.Match", "jlib.Contains", "jlib.Split", "jlib.Replace"}, map[string]bool{"jlib": true}, 10)
